@@ -15,8 +15,10 @@ from .schema import Schema
 from .pts import Interp
 
 VERIF = os.path.dirname(os.path.dirname(os.path.abspath(__file__)))
-EVIDENCE_DIR = os.path.join(VERIF, 'evidence')
-REPLAY_DIR = os.path.join(VERIF, 'replays')
+# maintenance tools that run the checks on a deliberately modified /repo (tools/seed_*.py) send the output elsewhere,
+# so that evidence/ always describes a run on /repo as it is
+EVIDENCE_DIR = os.environ.get('VERIF_EVIDENCE_DIR') or os.path.join(VERIF, 'evidence')
+REPLAY_DIR = os.environ.get('VERIF_REPLAY_DIR') or os.path.join(VERIF, 'replays')
 KNOWN_FILE = os.path.join(VERIF, 'known_findings.json')
 
 COMMON_TRUSTED = [
